@@ -215,8 +215,96 @@ func checkC19(c *Ctx) {
 			}
 		})
 	}
+	// optional sections: the TOML decoder leaves the embedded *geoip.DBConfig nil when the file sets none of its keys (an
+	// accepted configuration); on the reload path it may only be dereferenced under a non-nil test of the same path
+	nOpt := 0
+	for _, f := range fs {
+		eachInstr(f, func(in ssa.Instruction) {
+			var ptr ssa.Value
+			switch x := in.(type) {
+			case *ssa.UnOp:
+				if x.Op == token.MUL {
+					if _, isStruct := x.Type().Underlying().(*types.Struct); isStruct {
+						ptr = x.X
+					}
+				}
+			case *ssa.FieldAddr:
+				ptr = x.X
+			}
+			if ptr == nil || typeShort(ptr.Type()) != "*geoip.DBConfig" {
+				return
+			}
+			if fnPkgPath(f) != repoMod+"/"+lib {
+				return // inside the geoip package the section was tested by geoip.New before it was stored
+			}
+			nOpt++
+			pp := pathOf(ptr)
+			g := guarded(f, in, Atom{"(" + orderEq("nil", pp) + ")", false})
+			if !g {
+				nBad++
+				r.Bad("C19.1", fnName(f)+": optional section "+firstN(pp, 50)+" dereferenced without a nil test", in.Pos(), fnName(f),
+					"the GeoIP section of a configuration is a pointer the decoder leaves nil when no geoip_* key is set (an accepted configuration): dereferencing "+firstN(pp, 50)+" on the reload path without testing it panics the running station on SIGHUP", seen[f]...)
+			}
+		})
+	}
+	_ = nOpt
 	if nBad == 0 {
 		r.OK("C19.1", "reload path is free of panicking / exiting calls", token.NoPos, fmt.Sprintf("%d function(s) reachable from ParseConfig, OnReload, NewPhantomIPSelector, geoip.New", len(fs)))
+	}
+
+	// the loaders report their failures: OnReload keeps the previous selector only if the loader SAYS it failed - in the
+	// subnet loader chain every failing outcome of a call (err != nil, or errors.Is(err, …)) leads only to returns
+	// with a non-nil error (no fallback that looks like a successful load)
+	for _, a := range [][2]string{{"pkg/phantoms", "NewPhantomIPSelector"}, {"pkg/phantoms", "GetPhantomSubnetSelector"}, {"pkg/phantoms", "SubnetsFromTomlFile"}} {
+		f := c.P.Func(repoMod+"/"+a[0], "", a[1])
+		if f == nil || f.Blocks == nil || f.Signature.Results().Len() != 2 {
+			continue
+		}
+		okAll := true
+		what := ""
+		nCalls := 0
+		eachInstr(f, func(in ssa.Instruction) {
+			call, ok := in.(*ssa.Call)
+			if !ok {
+				return
+			}
+			sig := call.Call.Signature()
+			if sig.Results().Len() == 0 || !isErrorType(sig.Results().At(sig.Results().Len()-1).Type()) {
+				return
+			}
+			atoms := errAtoms(call, false)
+			failing := edgesEstablishing(f, func(cnd string, pol bool) bool {
+				for _, at := range atoms {
+					if at.Cond == cnd && at.Pol == pol {
+						return true
+					}
+				}
+				// errors.Is(<this error>, X) / os.IsNotExist(<this error>) taken as true
+				for _, nme := range errNames(call) {
+					if pol && (strings.HasPrefix(cnd, "errors.Is("+nme+",") || cnd == "os.IsNotExist("+nme+")") {
+						return true
+					}
+				}
+				return false
+			})
+			if len(failing) == 0 {
+				return
+			}
+			nCalls++
+			for e := range failing {
+				succ := f.Blocks[e.from].Succs[e.slot]
+				for _, v := range returnedAlong(f, f.Blocks[e.from], succ, 1) {
+					if cst, isC := v.(*ssa.Const); isC && cst.Value == nil {
+						okAll = false
+						what = shortName(calleeName(&call.Call))
+					}
+				}
+			}
+		})
+		if nCalls > 0 || a[1] == "SubnetsFromTomlFile" {
+			r.Check(okAll && (nCalls > 0 || a[1] != "SubnetsFromTomlFile"), "C19.2", a[1]+": a failed step is reported as an error", f.Pos(), fnName(f), fmt.Sprintf("%d fallible call(s), each failing edge leads only to error returns", nCalls),
+				"after "+what+" failed the loader can still return a selector with a nil error (a fallback): OnReload takes it for a successful load and replaces the working selector - a reload with a missing / unreadable subnet file changes the known generations instead of changing nothing")
+		}
 	}
 
 	// ---- C19.2 swap on success only
@@ -809,4 +897,21 @@ func mutatesReceiver(m *ssa.Function) bool {
 		}
 	})
 	return found
+}
+
+
+// errNames: the renderings under which the error result of call appears in conditions (its extract, and the local
+// it is stored into).
+func errNames(call *ssa.Call) []string {
+	var out []string
+	for _, a := range errAtoms(call, true) {
+		// atoms look like "(nil == X)" or "(X == nil)"
+		c := strings.TrimSuffix(strings.TrimPrefix(a.Cond, "("), ")")
+		for _, part := range strings.Split(c, " == ") {
+			if part != "nil" {
+				out = append(out, part)
+			}
+		}
+	}
+	return out
 }
